@@ -240,8 +240,12 @@ package lexer
 // symOK: every rule of the table has a token type of its own, below EOF; inKeys: s occurs in ks.
 //@ pred symOK(c compiledRules, sym map[string]TokenType) = foralls(s, forall(i, 0, len(c[s]), has(sym, c[s][i].Name) && sym[c[s][i].Name] < EOF))
 //@ pred inKeys(ks []string, s string) = member(ks, s)
+// lowerInitial: the rule's name starts with a lower-case letter (its first rune, as unicode.IsLower sees it);
+// ignOK: the ignore flag of every rule of the table says exactly that.
+//@ spec fn lowerInitial(name string) bool = len(name) > 0 && uf("ext_unicode.IsLower_r0", "Bool", uf("ext_utf8.DecodeRuneInString_r0", "Int", name))
+//@ pred ignOK(c compiledRules) = foralls(s, forall(i, 0, len(c[s]), c[s][i].ignore == lowerInitial(c[s][i].Name)))
 //@ pred ruleOK(r compiledRule) = !typeis(r.Action, include) && (r.RE != nil ==> uf("re_anchored", "Bool", r.RE))
-//@ pred rulesOK(d *StatefulDefinition) = !d.matchLongest && foralls(s, forall(i, 0, len(d.rules[s]), ruleOK(d.rules[s][i]))) && symOK(d.rules, d.symbols)
+//@ pred rulesOK(d *StatefulDefinition) = !d.matchLongest && foralls(s, forall(i, 0, len(d.rules[s]), ruleOK(d.rules[s][i]))) && symOK(d.rules, d.symbols) && ignOK(d.rules)
 // ruleMatches: does rule r, entered with capture groups g, match at the start of text s?
 //@ spec fn ruleMatches(r compiledRule, g []string, s string) bool = ite(r.RE != nil, uf("re_matches", "Bool", r.RE, s), uf("backref_matches", "Bool", r.Pattern, g, s))
 //@ spec fn isRet(r compiledRule) bool = r.Rule == ReturnRule
@@ -270,6 +274,7 @@ package lexer
 //@   requires rules != nil && anchOK(rules) && 0 <= rule && rule < len(rules[state])
 //@   modifies mapof(rules)
 //@   ensures anchOK(rules)
+//@   ensures old(ignOK(rules)) ==> ignOK(rules)
 //@   ensures foralls(s, rules[s] == old(rules[s]) || fresh(rules[s]) || (s == state && objof(rules[s]) == objof(old(rules[s]))))
 
 // Include: the placeholder is replaced by a copy of the included state's (compiled) rules.
@@ -298,26 +303,34 @@ package lexer
 //@   ensures result1 == nil ==> result0 != nil && rulesOK(result0)
 //@   use anchors(rule.Pattern) at call regexp.Compile#1
 //@   loop 1 invariant compiled != nil && fresh(compiled) && freshAll(compiled) && anchOK(compiled)
+//@   loop 1 invariant ignOK(compiled)
 //@   loop 2 invariant compiled != nil && fresh(compiled) && freshAll(compiled) && anchOK(compiled) && -1 <= rangeindex && rangeindex < len(set)
+//@   loop 2 invariant ignOK(compiled)
 //@   loop 2 decreases len(set) - rangeindex
 //@   loop 3 invariant compiled != nil && fresh(compiled) && freshAll(compiled) && anchOK(compiled)
+//@   loop 3 invariant ignOK(compiled)
 //@   loop 3 nonterminating-ok
 //@   loop 4 invariant compiled != nil && fresh(compiled) && freshAll(compiled) && anchOK(compiled)
+//@   loop 4 invariant ignOK(compiled)
 //@   loop 4 invariant foralls(s, visited(4, s) ==> forall(i, 0, len(compiled[s]), !implements(compiled[s][i].Action, RulesAction)))
 //@   loop 5 invariant compiled != nil && fresh(compiled) && freshAll(compiled) && anchOK(compiled) && -1 <= rangeindex && rangeindex < len(rules) && rules == compiled[state]
+//@   loop 5 invariant ignOK(compiled)
 //@   loop 5 invariant forall(j, 0, rangeindex+1, !implements(rules[j].Action, RulesAction))
 //@   loop 5 decreases len(rules) - rangeindex
 //@   after loop 4: assert foralls(s, has(compiled, s) ==> visited(4, s))
 //@   after loop 4: assert foralls(s, !has(compiled, s) ==> len(compiled[s]) == 0)
 //@   after loop 4: assert noInc(compiled)
 //@   loop 6 invariant compiled != nil && fresh(compiled) && freshAll(compiled) && anchOK(compiled) && noInc(compiled) && fresh(keys)
+//@   loop 6 invariant ignOK(compiled)
 //@   loop 6 invariant foralls(s, visited(6, s) ==> inKeys(keys, s))
 //@   after loop 6: assert foralls(s, has(compiled, s) ==> inKeys(keys, s))
 //@   loop 7 invariant compiled != nil && fresh(compiled) && freshAll(compiled) && anchOK(compiled) && noInc(compiled) && -1 <= rangeindex && rangeindex < len(keys) && symbols != nil && fresh(symbols) && duplicates != nil && fresh(duplicates)
+//@   loop 7 invariant ignOK(compiled)
 //@   loop 7 invariant rn <= EOF - 1 && foralls(s, has(compiled, s) ==> inKeys(keys, s))
 //@   loop 7 invariant forall(a, 0, rangeindex+1, forall(i, 0, len(compiled[keys[a]]), has(symbols, compiled[keys[a]][i].Name) && symbols[compiled[keys[a]][i].Name] < EOF))
 //@   loop 7 decreases len(keys) - rangeindex
 //@   loop 8 invariant compiled != nil && fresh(compiled) && freshAll(compiled) && anchOK(compiled) && noInc(compiled) && -1 <= rangeindex && symbols != nil && fresh(symbols) && duplicates != nil && fresh(duplicates)
+//@   loop 8 invariant ignOK(compiled)
 //@   loop 8 invariant rn <= EOF - 1 && foralls(s, has(compiled, s) ==> inKeys(keys, s)) && 0 <= rangeindex_up + 1 && rangeindex_up + 1 < len(keys) && key == keys[rangeindex_up+1]
 //@   loop 8 invariant forall(a, 0, rangeindex_up+1, forall(i, 0, len(compiled[keys[a]]), has(symbols, compiled[keys[a]][i].Name) && symbols[compiled[keys[a]][i].Name] < EOF))
 //@   loop 8 invariant forall(i, 0, rangeindex+1, has(symbols, compiled[key][i].Name) && symbols[compiled[key][i].Name] < EOF)
@@ -390,6 +403,8 @@ package lexer
 //@   ensures old(l.data) == "" ==> result1 == nil && result0.Type == EOF && result0.Value == "" && result0.Pos == old(l.pos)
 //@   ensures old(l.data) == "" ==> l.stack == old(l.stack) && l.data == old(l.data) && l.pos == old(l.pos)
 //@   ensures result1 == nil ==> (result0.Type == EOF && result0.Value == "" && l.data == "" && result0.Pos == l.pos) || (len(result0.Value) > 0 && len(l.data) + len(result0.Value) <= len(old(l.data)))
+//@   let rn string = rule.Name after call (*lexer.Position).Advance#1
+//@   ensures @emitted result1 == nil && len(result0.Value) > 0 ==> result0.Type == l.def.symbols[rn] && !lowerInitial(rn) [C03 C04]
 //@   ensures @eofOnlyAtEnd result1 == nil && result0.Type == EOF ==> result0.Value == "" && l.data == "" [C07]
 //@   ghost in string, fn string
 //@   ensures @posInv old(posInv(l, in, fn)) ==> posInv(l, in, fn) [C04]
